@@ -1,1 +1,227 @@
-(* placeholder, being written *)
+(* ------------------------------------------------------------------------- *)
+(*  BS.Codec.ProtoCodecProofs                                                *)
+(*                                                                           *)
+(*  C12, message part: every protocol message survives its own encoding and  *)
+(*  decoding, for all field values, whatever bytes follow -- over the        *)
+(*  `Message` layout generated from proto.rs / lib.rs.  Side conditions on   *)
+(*  the generated tables are discharged by computation: [message_ty_wf],     *)
+(*  and inside [msg_val_back] / [msg_val_typed] the lookups of every variant *)
+(*  and field in the generated tables.                                       *)
+(*  C12, component part: the reflect envelope theorems of SchemaProofs       *)
+(*  specialised to the statement of the property.                            *)
+(* ------------------------------------------------------------------------- *)
+
+From Coq Require Import List NArith Bool Lia.
+From BS Require Import Codec.Schema Codec.SchemaProofs Codec.CodecTypes Codec.CodecLemmas
+  Codec.ProtoCodec.
+From BSGen Require Import ProtoLayout.
+Import ListNotations.
+Local Open Scope N_scope.
+
+Lemma message_ty_wf : wf_ty message_ty = true.
+Proof. vm_compute. reflexivity. Qed.
+
+(* evaluate the model down to the leaves (table lookups are closed terms) *)
+Ltac crunch :=
+  cbv [val_to_msg msg_to_val msg_kind find_variant nth_variant message_variants mvariant_eqb
+       mvariant_idx N.eqb Pos.eqb N.succ Pos.succ N.pred Pos.pred_N Pos.pred_double map fst snd
+       msg_field build_msg pbytes pblob assoc pfield_eqb pfield_idx combine obind blob_of_val
+       val_of_blob params_of_val val_of_params sync_params_fields sparam_val sint sfield_eqb
+       sfield_idx ip_of_val val_of_ip octets_of_val].
+
+(* every variant is found at its declaration index, every field under its name *)
+Lemma msg_val_back : forall m, val_to_msg (msg_to_val m) = Some m.
+Proof.
+  intro m; destruct m as [id|a b|id|id n d|id d|id u|id u|id u| |ip p w t| |];
+    try destruct ip as [o|o]; crunch; rewrite ?tmap_eq, ?byte_seq_back; reflexivity.
+Qed.
+
+Lemma wt_uuid u : uuid_ok u -> wt TBytes (VBytes u) = true.
+Proof. intros [L F]. apply wt_bytes_lt; [rewrite L; reflexivity|exact F]. Qed.
+
+Lemma wt_string b : blob_ok b -> wt TBytes (VBytes b) = true.
+Proof. intros [L F]. apply wt_bytes_lt; assumption. Qed.
+
+Lemma wt_blob b : blob_ok b -> wt (TSeq (TInt 1)) (val_of_blob b) = true.
+Proof. intros [L F]. apply wt_byte_seq; assumption. Qed.
+
+Lemma wt_ip ip : ip_ok ip -> wt (TEnum [TArr 4 (TInt 1); TArr 16 (TInt 1)]) (val_of_ip ip) = true.
+Proof.
+  destruct ip as [o|o]; intros [L F]; unfold val_of_ip; rewrite tmap_eq;
+    (eapply wt_enum; [vm_compute; reflexivity | reflexivity | apply (wt_int_arr _ 1); assumption]).
+Qed.
+
+Ltac leaves :=
+  first [ apply wt_uuid; assumption | apply wt_string; assumption | apply wt_blob; assumption
+        | apply wt_ip; assumption
+        | apply (wt_int 2); assumption | apply (wt_int 8); assumption ].
+Ltac tuple := repeat (apply wt_tuple_nil || (apply wt_tuple_cons; [leaves|])).
+
+(* every field of every variant has the wire type the source declares for it *)
+Lemma msg_val_typed : forall m, wf_msg m -> wt message_ty (msg_to_val m) = true.
+Proof.
+  intro m; destruct m as [id|a b|id|id n d|id d|id u|id u|id u| |ip p w t| |]; cbn [wf_msg];
+    intro W; repeat match type of W with _ /\ _ => let H := fresh "W" in destruct W as [H W] end;
+    cbv [msg_to_val msg_kind find_variant message_variants mvariant_eqb mvariant_idx N.eqb Pos.eqb
+         N.succ Pos.succ map fst snd msg_field message_ty variant_ty];
+    (eapply wt_enum; [vm_compute; reflexivity | reflexivity | ]); try reflexivity; tuple.
+  (* NewHost: the nested SyncConnectionParameters *)
+  apply wt_tuple_cons; [|apply wt_tuple_nil].
+  eapply wt_enum; [vm_compute; reflexivity | reflexivity | ].
+  cbv [sync_params_fields map fst snd sparam_val]. tuple.
+Qed.
+
+(* ---------------------------------------------------------------------- *)
+(*  C12, messages                                                          *)
+(* ---------------------------------------------------------------------- *)
+
+(* every message of every kind, every payload: encoding succeeds and decoding the bytes --
+   followed by anything -- returns the message *)
+Theorem C12_message_roundtrip : forall m, wf_msg m ->
+  exists bs, encode m = Some bs /\ forall rest, decode (bs ++ rest) = Some m.
+Proof.
+  intros m W. destruct (enc_wt _ _ message_ty_wf (msg_val_typed m W)) as [bs E].
+  exists bs. split; [exact E|]. intro rest. unfold decode.
+  unfold encode in E. rewrite (dec_enc _ _ _ rest message_ty_wf E). apply msg_val_back.
+Qed.
+
+(* two messages with the same bytes are the same message *)
+Theorem encode_injective : forall m1 m2 bs,
+  encode m1 = Some bs -> encode m2 = Some bs -> m1 = m2.
+Proof.
+  intros m1 m2 bs E1 E2. unfold encode in *.
+  pose proof (enc_inj _ _ _ _ message_ty_wf E1 E2) as V.
+  pose proof (msg_val_back m1) as B1. rewrite V, msg_val_back in B1. congruence.
+Qed.
+
+(* the decoder accepts only canonical encodings: what it accepts re-encodes to the bytes read *)
+Theorem decode_canonical : forall bs m, decode bs = Some m ->
+  forall v rest, dec message_ty bs = Some (v, rest) ->
+  exists pre, enc message_ty v = Some pre /\ bs = pre ++ rest.
+Proof. intros bs m _ v rest D. exact (enc_dec _ _ _ _ D message_ty_wf). Qed.
+
+Theorem encode_fast_eq : forall m, encode_fast m = encode m.
+Proof. intro m. unfold encode_fast, encode. apply enc_fast_eq. Qed.
+
+Theorem decode_fast_eq : forall bs, decode_fast bs = decode bs.
+Proof. intro bs. unfold decode_fast, decode. rewrite dec_fast_eq. reflexivity. Qed.
+
+(* ---------------------------------------------------------------------- *)
+(*  C12, components and materials: the reflect envelope                    *)
+(*                                                                         *)
+(*  For EVERY wire schema [t] (any nesting of structs, tuple structs,      *)
+(*  enums, options, lists, arrays, maps, strings, chars, integers and      *)
+(*  floats of every width) and every value [v] of it, under any type path: *)
+(*  the bytes of `reflect_to_bin` decode, on a peer that resolves the path *)
+(*  to the same schema, to the same value and the same path, leaving       *)
+(*  exactly the trailing bytes; and whatever the decoder returns on those  *)
+(*  bytes re-encodes to the same bytes.                                    *)
+(*  NOT proved here (statements about macro-generated Rust code): that     *)
+(*  `FromReflect` rebuilds an equal concrete Rust value from the decoded   *)
+(*  dynamic value and that `reflect_partial_eq` holds between the two.     *)
+(*  These are checked on generated values by the correspondence runs only  *)
+(*  (flags from_reflect / partial_eq of the REFLCHK lines).                *)
+(* ---------------------------------------------------------------------- *)
+
+Theorem C12_component_roundtrip : forall lookup path t v,
+  lookup path = Some t -> wf_ty t = true -> wt t v = true ->
+  N.of_nat (length path) < 2 ^ 64 -> Forall (fun b => b < 256) path ->
+  exists bs,
+    enc_reflect path t v = Some bs
+    /\ (forall rest, dec_reflect lookup (bs ++ rest) = Some (path, v, rest))
+    /\ (forall rest path' v' rest',
+          dec_reflect lookup (bs ++ rest) = Some (path', v', rest') ->
+          enc_reflect path' t v' = Some bs).
+Proof.
+  intros lookup path t v Lk W T L F.
+  destruct (enc_wt _ _ W T) as [b Eb].
+  assert (Ep : enc_bytes path = Some (le_bytes 8 (N.of_nat (length path)) ++ path)).
+  { unfold enc_bytes. cbv zeta. rewrite (len_ok_lt _ L), (forallb_byte_ok_lt _ F). reflexivity. }
+  assert (E : enc_reflect path t v
+              = Some (le_bytes 8 1 ++ (le_bytes 8 (N.of_nat (length path)) ++ path) ++ b)).
+  { unfold enc_reflect. rewrite Ep, Eb. reflexivity. }
+  eexists. split; [exact E|]. split.
+  - intro rest. exact (reflect_roundtrip lookup path t v _ rest Lk W F E).
+  - intros rest path' v' rest' D.
+    rewrite (reflect_roundtrip lookup path t v _ rest Lk W F E) in D.
+    injection D as <- <- <-. exact E.
+Qed.
+
+(* distinct values of a schema have distinct bytes *)
+Theorem C12_component_injective : forall path t v1 v2 bs,
+  wf_ty t = true -> enc_reflect path t v1 = Some bs -> enc_reflect path t v2 = Some bs -> v1 = v2.
+Proof.
+  intros path t v1 v2 bs W E1 E2. unfold enc_reflect in *.
+  destruct (enc_bytes path) as [p|]; [|discriminate].
+  destruct (enc t v1) as [b1|] eqn:B1; [|discriminate].
+  destruct (enc t v2) as [b2|] eqn:B2; [|discriminate].
+  injection E1 as <-. injection E2 as E2. repeat apply app_inv_head in E2.
+  subst b2. exact (enc_inj _ _ _ _ W B1 B2).
+Qed.
+
+(* ---------------------------------------------------------------------- *)
+(*  Source tie (statement repeated in Properties/C12.v)                    *)
+(* ---------------------------------------------------------------------- *)
+
+(* the wire layout of Message: variant order = wire index, fields in order with their types *)
+Lemma source_message_layout :
+  message_variants =
+  [(K_EntitySpawn, [(P_id, TBytes)]);
+   (K_EntityParented, [(P_entity_id, TBytes); (P_parent_id, TBytes)]);
+   (K_EntityDelete, [(P_id, TBytes)]);
+   (K_ComponentUpdated, [(P_id, TBytes); (P_name, TBytes); (P_data, TSeq (TInt 1))]);
+   (K_StandardMaterialUpdated, [(P_id, TBytes); (P_material, TSeq (TInt 1))]);
+   (K_MeshUpdated, [(P_id, TBytes); (P_url, TBytes)]);
+   (K_ImageUpdated, [(P_id, TBytes); (P_url, TBytes)]);
+   (K_AudioUpdated, [(P_id, TBytes); (P_url, TBytes)]);
+   (K_PromoteToHost, []);
+   (K_NewHost, [(P_params, TEnum [TTuple [TEnum [TArr 4 (TInt 1); TArr 16 (TInt 1)]; TInt 2; TInt 2; TInt 8]])]);
+   (K_RequestInitialSync, []);
+   (K_FinishedInitialSync, [])]
+  /\ map fst sync_params_fields = [S_ip; S_port; S_web_port; S_max_transfer].
+Proof. split; reflexivity. Qed.
+
+(* ---------------------------------------------------------------------- *)
+(*  Non-vacuity                                                            *)
+(* ---------------------------------------------------------------------- *)
+
+Definition ex_uuid : list N := [1; 2; 3; 4; 5; 6; 7; 8; 9; 10; 11; 12; 13; 14; 15; 255].
+
+Definition ex_msgs : list msg :=
+  [MEntitySpawn ex_uuid; MEntityParented ex_uuid (rev ex_uuid); MEntityDelete ex_uuid;
+   MComponentUpdated ex_uuid [97; 58; 58; 206; 188] [0; 255; 3];
+   MStandardMaterialUpdated ex_uuid []; MMeshUpdated ex_uuid [104; 116; 116; 112];
+   MImageUpdated ex_uuid []; MAudioUpdated ex_uuid [47]; MPromoteToHost;
+   MNewHost (IpV4 [127; 0; 0; 1]) 65535 0 18446744073709551615;
+   MNewHost (IpV6 [0; 0; 0; 0; 0; 0; 0; 0; 0; 0; 0; 0; 0; 0; 0; 1]) 1 2 3;
+   MRequestInitialSync; MFinishedInitialSync].
+
+Example ex_msgs_wf : Forall wf_msg ex_msgs.
+Proof. repeat constructor. Qed.
+
+Example ex_msgs_roundtrip :
+  map (fun m => match encode m with Some bs => decode (bs ++ [1; 2; 3]) | None => None end) ex_msgs
+  = map Some ex_msgs.
+Proof. vm_compute. reflexivity. Qed.
+
+(* the wire form of two messages, as observed on the real code *)
+Example ex_spawn_bytes :
+  encode (MEntitySpawn ex_uuid) = Some ([0; 0; 0; 0; 16; 0; 0; 0; 0; 0; 0; 0] ++ ex_uuid).
+Proof. vm_compute. reflexivity. Qed.
+
+Example ex_newhost_bytes :
+  encode (MNewHost (IpV4 [146; 115; 155; 22]) 0 65535 13312586)
+  = Some [9; 0; 0; 0; 0; 0; 0; 0; 0; 0; 0; 0; 146; 115; 155; 22; 0; 0; 255; 255; 74; 34; 203; 0; 0; 0; 0; 0].
+Proof. vm_compute. reflexivity. Qed.
+
+(* a component value of a nested schema under a type path *)
+Example ex_component_roundtrip :
+  let path := [67; 111; 109; 112] in
+  let t := TTuple [TOpt (TInt 4); TSeq (TInt 8); TBytes; TEnum [TUnit; TTuple [TInt 2; TBool]]; TChar] in
+  let v := VTuple [VOpt (Some (VInt 7)); VSeq [VInt 1; VInt 18446744073709551615]; VBytes [206; 188];
+                   VEnum 1 (VTuple [VInt 65535; VBool true]); VChar 0x10FFFF] in
+  match enc_reflect path t v with
+  | Some bs => dec_reflect (fun p => if bytes_eqb p path then Some t else None) (bs ++ [9])
+  | None => None
+  end = Some (path, v, [9]).
+Proof. vm_compute. reflexivity. Qed.
